@@ -28,6 +28,8 @@ class Monitor:
         self.acks = []
         self.aborts = []
         self.nframes = 0
+        self.retx = False                    # follow the responder's view: frames lost on the bus are not seen, a CTS may
+                                             # ask for packets again (retransmission)
 
     def bad(self, fr, text):
         self.problems.append((fr.src, text))
@@ -35,6 +37,8 @@ class Monitor:
     # ------------------------------------------------------------------
     def feed(self, fr):
         if not fr.ext:
+            return
+        if self.retx and getattr(fr, 'lost', False):
             return
         self.nframes += 1
         if self.fd:
@@ -123,7 +127,14 @@ class Monitor:
             # by a conforming responder in the envelope - flag it for the responder
             self.bad(fr, "CTS sent while %d cleared packets are still outstanding" % s.cleared)
         if nxt != s.next:
-            self.bad(fr, "CTS asks for packet %d, next in order is %d" % (nxt, s.next))
+            if self.retx and 1 <= nxt < s.next and not s.complete:
+                # retransmission request: the responder wants the packets from nxt on again
+                seg = 60 if self.fd else 7
+                s.next = nxt
+                del s.data[(nxt - 1) * seg:]
+                remaining = s.npk - s.next + 1
+            else:
+                self.bad(fr, "CTS asks for packet %d, next in order is %d" % (nxt, s.next))
         lim = s.limit if s.limit else 255
         if n > lim:
             self.bad(fr, "CTS grants %d packets, the RTS allows %d" % (n, lim))
@@ -173,6 +184,8 @@ class Monitor:
                     self.bad(fr, "broadcast packets %.1f ms apart (more than 200 ms) on an otherwise idle stack" % (gap * 1e3))
         s.last_dt_t = fr.t
         if seq != s.next:
+            if self.retx and seq > s.next and s.kind == 'cmdt':
+                return                      # a packet was lost before this one: the responder drops it and will ask again
             self.bad(fr, "sequence number %d, expected %d" % (seq, s.next))
         s.next += 1
         s.data.extend(chunk[:seg])
@@ -222,7 +235,7 @@ class Monitor:
             if s is None:
                 self.bad(fr, "end-of-message status without an open session")
                 return
-            if not s.complete:
+            if not s.complete and not (self.retx and s.kind == 'cmdt'):
                 self.bad(fr, "end-of-message status before all segments were sent")
             if (d['size'], d['nseg'], d['pgn']) != (s.size, s.npk, s.pgn):
                 self.bad(fr, "end-of-message status fields do not match the announcement")
